@@ -15,7 +15,7 @@ import (
 
 func init() {
 	register("C15",
-		"DECIDED: D1 Clear covers the state — every path through a store's Clear performs every reset some path performs (no early return under "already empty": emptiness does not imply a pristine window, flag or array); for every store type, every field that any non-constructor method of the type can write (interprocedural write sets) is restored by Clear to what the constructor establishes: slices are truncated to length 0 (or replaced), maps are emptied over their own key range, scalars get the constructor's value (compared as normalised terms: sentinels, ±Inf, maxInt, false, 0). Reasoned exceptions, each with its own checked side condition: DenseStore.offset (assigned on the empty edge of every extendRange before any read), BufferedPaginatedStore.bufferCompactionTriggerLen (read only by the mutation paths that schedule compaction, never by an observer), BufferedPaginatedStore.pages outer slice (kept; every inner page is truncated to length 0). The collapsing stores lower the collapsed flag and delegate to the embedded Clear; DDSketch.Clear clears both stores and zeroes the zero weight (exact variant: C10-D1; statistics object: C10-D3). "+
+		"DECIDED: D1 Clear covers the state — every path through a store's Clear performs every reset some path performs (no early return under an already-empty test: emptiness does not imply a pristine window, flag or array); for every store type, every field that any non-constructor method of the type can write (interprocedural write sets) is restored by Clear to what the constructor establishes: slices are truncated to length 0 (or replaced), maps are emptied over their own key range, scalars get the constructor's value (compared as normalised terms: sentinels, ±Inf, maxInt, false, 0). Reasoned exceptions, each with its own checked side condition: DenseStore.offset (assigned on the empty edge of every extendRange before any read), BufferedPaginatedStore.bufferCompactionTriggerLen (read only by the mutation paths that schedule compaction, never by an observer), BufferedPaginatedStore.pages outer slice (kept; every inner page is truncated to length 0). The collapsing stores lower the collapsed flag and delegate to the embedded Clear; DDSketch.Clear clears both stores and zeroes the zero weight (exact variant: C10-D1; statistics object: C10-D3). "+
 			"D2 retained memory is zero-filled before reuse — the slice fields that Clear truncates are only ever re-grown by append (append-of-make or single elements, i.e. with explicit values); every other reslice stored back into them is provably non-growing ([:0], no upper bound, or len−k with k ≥ 0 established from the loop structure). "+
 			"SHARED (re-evaluated here under its home rule id): C05-D2 (every allocation or reslice of a collapsing store's bin array is bounded by the capped length — also the first growth after a Clear that kept a larger array). C04-D9 (the paginated store's page table has one owner and emptied slots are recognised by length — the two things a cleared-and-reused paginated store depends on). "+
 			"SHARED (obligations of other properties that decide clauses this property states too, re-evaluated here under their home rule ids): C10-D3 Clear as C15-D3 (the statistics object of the exact variant is reset field by field to the constructor values). the Clear wrapper of the exact variant as C15-D3 (inner Clear and statistics Clear on every path); C14-D2 (every Copy is deep, also of a cleared store that kept its arrays). "+
